@@ -43,7 +43,7 @@ EXHAUSTIVE = {
 TRUSTED = [
     "Lean 4 kernel; axioms of every listed theorem audited to be within {propext, Classical.choice, Quot.sound}",
     "hand-written Lean model UralModel/Model/TrieDict.lean of ural/classes/trie_dict.py, tied to the code by differential execution of whole histories (this run)",
-    "the three explicit-stack generators items()/prefixes()/values() are modelled as three loops (dict insertion order = association-list order; fuel = number of nodes) and compared with the real generators IN ORDER; the theorems state permutations only (the property states no order); the oracle compares sorted",
+    "the three explicit-stack generators items()/prefixes()/values() are modelled as three independent loops (dict insertion order = association-list order; fuel = number of nodes); the model reproduces Python's order (checked once: 0 disagreements in order over the quick stream), but the order is not part of the contract — a re-ordered traversal is a harmless edit — so model, implementation and oracle are compared as sorted lists (multisets); the theorems state permutations",
     "token equality is Python == on hashable tokens; the model uses strings as tokens",
 ]
 ASSUMPTIONS = [
@@ -204,7 +204,10 @@ def canon(op, out):
     res = []
     for o, step in zip(out, _script_cache(op)):
         name = step[0]
-        if name == "lmpv":
+        if name in ("items", "prefixes", "values") and isinstance(o, list):
+            # the order of the generators is not part of the contract: a re-ordered traversal is a harmless edit
+            o = _sorted(o)
+        elif name == "lmpv":
             # model answers Option: {"some": v} | "absent"; the API collapses absent to None
             if o == "absent":
                 o = None
